@@ -13,5 +13,5 @@ if n[1]==0: sys.exit(1)
 open(f,'w').write(n[0])
 PY
 git -C /repo diff --stat | tail -1
-cd /verif && /venv/bin/python harness/check.py $cid --tier $tier 2>&1 | grep -E "VIOLATION|KNOWN|\[$cid\]" | head -4
+cd /verif && /venv/bin/python harness/check.py $cid --tier $tier 2>&1 | grep -E "VIOLATION|KNOWN|\[$cid\]" | cut -c1-110 | head -5
 git -C /repo checkout -- .
